@@ -72,6 +72,9 @@ def make_data(kind, zone, shape):
         return pd.DataFrame({"value": pd.array(vals.astype("int64"), dtype="Int64")}, index=idx)
     if shape == "frame_f32":
         return pd.DataFrame({"value": vals.astype("float32"), "temperature": (vals * 0.5 + 30).astype("float32")}, index=idx)
+    if shape == "frame_estimated":
+        # the classic meter frame: readings plus a boolean `estimated` flag (a column that cannot hold NaN)
+        return pd.DataFrame({"value": vals, "estimated": (np.arange(len(idx)) % 7 == 0)}, index=idx)
     raise ValueError(shape)
 
 
@@ -96,7 +99,7 @@ def cut_instants(idx):
 
 def cases(tier):
     out = []
-    shapes = ["series", "series_nanhead", "frame", "series_int", "frame_int", "frame_Int64", "frame_f32"]
+    shapes = ["series", "series_nanhead", "frame", "series_int", "frame_int", "frame_Int64", "frame_f32", "frame_estimated"]
     for kind in SERIES_KINDS:
         for zone in ZONES:
             idx = make_index(kind, zone)
@@ -115,7 +118,7 @@ def cases(tier):
             for shape in shapes:
                 if tier == "quick" and shape != "series" and kind == "hourly10d":
                     continue
-                if shape in ("series_int", "frame_int", "frame_Int64", "frame_f32") and (kind == "hourly10d" or (tier == "quick" and zone != "America/Chicago")):
+                if shape in ("series_int", "frame_int", "frame_Int64", "frame_f32", "frame_estimated") and (kind == "hourly10d" or (tier == "quick" and zone != "America/Chicago")):
                     continue
                 out.append({"fn": "both", "kind": kind, "zone": zone, "shape": shape, "cut": "none", "cut_tz": "same"})
                 for lab, _ in cuts:
